@@ -38,6 +38,10 @@ type closureVal struct {
 	fn       *ssa.Function
 	bindings []ssa.Value
 	parent   *Frame
+	// sibling: a closure created by the same activation of the enclosing function
+	// as the closure under verification (reached through a captured cell); its
+	// bindings are values of the enclosing function
+	sibling bool
 }
 
 type deferRec struct {
@@ -57,6 +61,9 @@ type retRec struct {
 
 type Frame struct {
 	c        *Ctx
+	sibCells map[*ssa.Alloc]Term
+	capVals  map[*ssa.Alloc]Term          // contents of write-once captured variables (top frame)
+	fvAlloc  map[*ssa.FreeVar]*ssa.Alloc // enclosing-function variable a free variable stands for
 	fn       *ssa.Function
 	id       string
 	parent   *Frame
@@ -421,6 +428,21 @@ func (fr *Frame) lookupName(name string, e *Env) (TV, bool) {
 		hb := e.at
 		if e.loopHead != nil {
 			hb = e.loopHead
+		} else if hb != nil && name == "$i" {
+			// inside a loop body: the innermost enclosing range loop; $i is then the
+			// index of the element being processed
+			for h := hb; h != nil; h = h.Idom() {
+				isRange := false
+				for _, in := range h.Instrs {
+					if ph, ok := in.(*ssa.Phi); ok && ph.Comment == "rangeindex" {
+						isRange = true
+					}
+				}
+				if isRange && (h == hb || reaches(hb, h)) {
+					hb = h
+					break
+				}
+			}
 		}
 		if hb != nil {
 			for _, in := range hb.Instrs {
@@ -483,6 +505,9 @@ func (fr *Frame) lookupName(name string, e *Env) (TV, bool) {
 	}
 	for _, fv := range fn.FreeVars {
 		if fv.Name() == name {
+			if a := fr.capturedAlloc(fv); a != nil && immutableCapture(a) {
+				return TV{T: fr.capConst(a), Ty: fv.Type().Underlying().(*types.Pointer).Elem()}, true
+			}
 			if fr.freeVarByRef(fv) {
 				l := fr.locOf(fv)
 				ne := *fr
@@ -564,6 +589,32 @@ func (fr *Frame) lookupName(name string, e *Env) (TV, bool) {
 			return TV{T: fr.val(p), Ty: p.Type()}, true
 		}
 	}
+	// a closure verified on its own may be specified in terms of captured variables of
+	// its enclosing function that only its sibling closures use
+	for anc := fn.Parent(); fr.parent == nil && anc != nil; anc = anc.Parent() {
+		for _, b := range anc.Blocks {
+			for _, in := range b.Instrs {
+				if a, ok := in.(*ssa.Alloc); ok && a.Heap && a.Comment == name {
+					el := a.Type().Underlying().(*types.Pointer).Elem()
+					if immutableCapture(a) {
+						return TV{T: fr.capConst(a), Ty: el}, true
+					}
+					r := fr.siblingCell(a)
+					ne := *fr
+					ne.st = e.st
+					saved := fr.vals[a]
+					fr.vals[a] = r
+					l := ne.locOf(a)
+					if saved == "" {
+						delete(fr.vals, a)
+					} else {
+						fr.vals[a] = saved
+					}
+					return TV{T: ne.load(l), Ty: el}, true
+				}
+			}
+		}
+	}
 	// an inlined closure may be specified in terms of its enclosing function's variables
 	if fr.parent != nil && fr.fn.Parent() != nil {
 		for pf := fr.parent; pf != nil; pf = pf.parent {
@@ -579,6 +630,218 @@ func (fr *Frame) lookupName(name string, e *Env) (TV, bool) {
 		}
 	}
 	return TV{}, false
+}
+
+// siblingCell: the cell of a captured variable of the enclosing function, as seen from a
+// closure verified on its own. If the closure captures the variable itself, that is its
+// free variable; otherwise one unknown cell per variable (allocated before entry, distinct
+// from the other captured cells).
+func (fr *Frame) siblingCell(a *ssa.Alloc) Term {
+	top := fr.topFrame()
+	c := fr.c
+	if t, ok := top.sibCells[a]; ok {
+		return t
+	}
+	if top.sibCells == nil {
+		top.sibCells = map[*ssa.Alloc]Term{}
+	}
+	// the closure under verification may capture the variable itself
+	for _, fv := range top.fn.FreeVars {
+		if resolveCapture(top.fn, fv) == a {
+			t := top.val(fv)
+			top.sibCells[a] = t
+			return t
+		}
+	}
+	n := c.fresh("sib_"+a.Comment, "Ref")
+	c.assert("(not (= " + n + " null))")
+	if top.entry != nil {
+		if al, ok := top.entry.comps["alloc"]; ok {
+			c.assert("(select " + al + " " + n + ")")
+		}
+	}
+	al := c.comp(top.st, "alloc", "(Array Ref Bool)")
+	c.assert("(select " + al + " " + n + ")")
+	var others []Term
+	for _, fv := range top.fn.FreeVars {
+		if top.freeVarByRef(fv) {
+			others = append(others, top.val(fv))
+		}
+	}
+	for _, o := range top.sibCells {
+		others = append(others, o)
+	}
+	for _, o := range others {
+		if o != n {
+			c.assert("(not (= " + n + " " + o + "))")
+		}
+	}
+	top.sibCells[a] = n
+	c.assumed["captured variables of the enclosing function that only sibling closures use are unknown cells allocated before entry"] = true
+	return n
+}
+
+// capturedAlloc: the variable of the enclosing function of the closure under
+// verification that a free variable stands for (nil when unknown).
+func (fr *Frame) capturedAlloc(fv *ssa.FreeVar) *ssa.Alloc {
+	if a, ok := fr.fvAlloc[fv]; ok {
+		return a
+	}
+	if fr.parent != nil || fr.fn.Parent() == nil {
+		return nil
+	}
+	return resolveCapture(fr.fn, fv)
+}
+
+// resolveCapture follows a free variable through the MakeClosure instructions of the
+// enclosing functions to the variable it captures.
+func resolveCapture(fn *ssa.Function, fv *ssa.FreeVar) *ssa.Alloc {
+	p := fn.Parent()
+	if p == nil {
+		return nil
+	}
+	for _, b := range p.Blocks {
+		for _, in := range b.Instrs {
+			if mc, ok := in.(*ssa.MakeClosure); ok && mc.Fn == fn {
+				for j, bv := range mc.Bindings {
+					if j < len(fn.FreeVars) && fn.FreeVars[j] == fv {
+						switch x := bv.(type) {
+						case *ssa.Alloc:
+							return x
+						case *ssa.FreeVar:
+							return resolveCapture(p, x)
+						}
+					}
+				}
+			}
+		}
+	}
+	return nil
+}
+
+// capConst: the content of a write-once captured variable of the enclosing function
+// (one unknown value for the whole execution of the closure under verification).
+func (fr *Frame) capConst(a *ssa.Alloc) Term {
+	top := fr.topFrame()
+	c := fr.c
+	if t, ok := top.capVals[a]; ok {
+		return t
+	}
+	if top.capVals == nil {
+		top.capVals = map[*ssa.Alloc]Term{}
+	}
+	el := a.Type().Underlying().(*types.Pointer).Elem()
+	n := c.fresh("cap_"+a.Comment, c.sortOf(el))
+	for _, f := range c.typeFacts(n, el, 0) {
+		c.assert(f)
+	}
+	al := ""
+	if top.entry != nil {
+		al = top.entry.comps["alloc"]
+	}
+	if al == "" {
+		al = c.comp(top.st, "alloc", "(Array Ref Bool)")
+	}
+	switch c.sortOf(el) {
+	case "Ref":
+		c.assert("(or (= " + n + " null) (select " + al + " " + n + "))")
+	case "Slice":
+		c.assert("(or (= (sref " + n + ") null) (select " + al + " (sref " + n + ")))")
+	}
+	top.capVals[a] = n
+	c.assumed["a captured variable stored once (in the block that declares it, before any closure captures it) and only read by closures keeps its value"] = true
+	return n
+}
+
+var immCapMemo = map[*ssa.Alloc]bool{}
+
+// immutableCapture: a heap variable with exactly one store, in the block that
+// allocates it and before every closure that binds it, whose closures only read it.
+func immutableCapture(a *ssa.Alloc) bool {
+	if v, ok := immCapMemo[a]; ok {
+		return v
+	}
+	res := immutableCapture1(a)
+	immCapMemo[a] = res
+	return res
+}
+
+func immutableCapture1(a *ssa.Alloc) bool {
+	if !a.Heap || a.Referrers() == nil {
+		return false
+	}
+	var store *ssa.Store
+	var mcs []*ssa.MakeClosure
+	for _, ref := range *a.Referrers() {
+		switch r := ref.(type) {
+		case *ssa.Store:
+			if r.Addr != ssa.Value(a) || store != nil {
+				return false
+			}
+			store = r
+		case *ssa.UnOp:
+			if r.Op != token.MUL {
+				return false
+			}
+		case *ssa.MakeClosure:
+			mcs = append(mcs, r)
+		case *ssa.DebugRef:
+		default:
+			return false
+		}
+	}
+	if store == nil || store.Block() != a.Block() {
+		return false
+	}
+	idx := func(in ssa.Instruction) int {
+		for i, x := range in.Block().Instrs {
+			if x == in {
+				return i
+			}
+		}
+		return -1
+	}
+	for _, mc := range mcs {
+		if mc.Block() == store.Block() {
+			if idx(mc) < idx(store) {
+				return false
+			}
+		} else if !store.Block().Dominates(mc.Block()) {
+			return false
+		}
+		f := mc.Fn.(*ssa.Function)
+		for i, bv := range mc.Bindings {
+			if bv == ssa.Value(a) && !fvReadOnly(f.FreeVars[i]) {
+				return false
+			}
+		}
+	}
+	return true
+}
+
+func fvReadOnly(fv *ssa.FreeVar) bool {
+	if fv.Referrers() == nil {
+		return true
+	}
+	for _, ref := range *fv.Referrers() {
+		switch r := ref.(type) {
+		case *ssa.UnOp:
+			if r.Op != token.MUL {
+				return false
+			}
+		case *ssa.DebugRef:
+		case *ssa.MakeClosure:
+			f := r.Fn.(*ssa.Function)
+			for i, bv := range r.Bindings {
+				if bv == ssa.Value(fv) && !fvReadOnly(f.FreeVars[i]) {
+					return false
+				}
+			}
+		default:
+			return false
+		}
+	}
+	return true
 }
 
 func domDepth(b *ssa.BasicBlock) int {
